@@ -61,6 +61,9 @@ def body(ck):
     if not ck.build_coq() or not ck.compile_props():
         # proof broken: still hunt below with the predicate
         pass
+    # the Coq definition of compute_returns_and_advantages is REGENERATED from buffer/rollout.py and the link theorems
+    # (generated definition = the GAE recursion, for every input) are re-checked
+    ck.kernel_link()
     rng = ck.rng
     quick = ck.tier == "quick"
     n_rand = 500 if quick else 2500
